@@ -377,7 +377,7 @@ func cdGenEvCase(r *rand.Rand, odd int) cdEvCase {
 			case 2:
 				v = cdSpecEscape(RandBytes(r, r.Intn(12), `ab; \`+"\r\n:sn"))
 			default:
-				v = RandBytes(r, r.Intn(8), `abc\:sxyz019=/`)
+				v = RandBytes(r, r.Intn(8), `abc:sxyz019=/~!`)
 			}
 			if isOdd() {
 				v = cdPickS(r, cdRawValOdd)
